@@ -29,7 +29,7 @@ fn budget(count: usize, trees: usize, search_k: Option<usize>, oversampling: Opt
         Some(o) => o as u128,
         None => metric.default_oversampling() as u128,
     };
-    (base * o).min(usize::MAX as u128)
+    base.saturating_mul(o).min(usize::MAX as u128)
 }
 
 pub fn query_lattice(
